@@ -326,6 +326,9 @@ impl DBM {
             "UPDATE towers SET available_slots=?1 WHERE tower_id=?2",
             params![available_slots, tower_id.to_vec()],
         )?;
+        // An accepted appointment is not pending any more. Drop the pending reference (if any) in this very transaction,
+        // so the appointment is never recorded as both (nor as neither) if we are stopped half-way.
+        Self::delete_pending_reference(&tx, tower_id, locator)?;
         #[cfg(feature = "verif")]
         teos_common::verif::crash_point("client::store_appointment_receipt:before_commit");
         #[cfg(feature = "verif")]
@@ -533,6 +536,28 @@ impl DBM {
         tx.commit()
     }
 
+    /// Removes the pending reference of a tower to an appointment (if there is one) as part of an ongoing transaction.
+    /// The appointment data is removed alongside if nobody else (pending or invalid) references it anymore.
+    fn delete_pending_reference(
+        tx: &rusqlite::Transaction,
+        tower_id: TowerId,
+        locator: Locator,
+    ) -> Result<(), SqliteError> {
+        let deleted = tx.execute(
+            "DELETE FROM pending_appointments WHERE locator=?1 AND tower_id=?2",
+            params![locator.to_vec(), tower_id.to_vec()],
+        )?;
+        if deleted > 0 {
+            tx.execute(
+                "DELETE FROM appointments WHERE locator=?1
+                    AND NOT EXISTS (SELECT 1 FROM pending_appointments WHERE locator=?1)
+                    AND NOT EXISTS (SELECT 1 FROM invalid_appointments WHERE locator=?1)",
+                params![locator.to_vec()],
+            )?;
+        }
+        Ok(())
+    }
+
     /// Stores an invalid appointment into the database.
     ///
     /// An invalid appointment is an appointment that was rejected by the tower.
@@ -552,6 +577,8 @@ impl DBM {
             "INSERT INTO invalid_appointments (locator, tower_id) VALUES (?1, ?2)",
             params![appointment.locator.to_vec(), tower_id.to_vec(),],
         )?;
+        // Same as for accepted appointments: an invalid appointment is not pending any more.
+        Self::delete_pending_reference(&tx, tower_id, appointment.locator)?;
 
         #[cfg(feature = "verif")]
         teos_common::verif::crash_point("client::store_invalid_appointment:before_commit");
